@@ -187,6 +187,44 @@ def judge(spec, decide, callbacks=False, per_call=None, max_points=None, m2=True
                 add("other-exception", "%s raised %s (%s) %s || %s" % (
                     head, ev.get("exc_type"), ev.get("exc_msg"), "[satisfiable]" if sat else "[unsatisfiable]",
                     (ev.get("exc_tb") or "")[-400:]))
+        # --- wide programs (domain beyond the enumeration bound): planted-witness label and sampled M2
+        if sols is None and spec.get("wide") and call is not None:
+            recs_w = ev.get("records") or []
+            wit = None
+            try:
+                w0 = spec.get("witness") or {}
+                wenv = {tuple(k.split("/")) if isinstance(k, str) else tuple(k): v for k, v in w0.items()}
+                wenv = {p: wenv[p] for p, _ in call.rand_leaves if p in wenv}
+                if len(wenv) == len(call.rand_leaves) and call.holds(wenv):
+                    wit = wenv
+            except R.Corner:
+                wit = None
+            if wit is not None:
+                cnt.inc("planted_sat_calls")
+                if oc == "SolveFailure":
+                    add("spurious-solve-failure", "%s raised SolveFailure although the planted witness %s satisfies every constraint" % (
+                        head, {".".join(map(str, p)): v for p, v in wit.items()}))
+                elif oc == "exc":
+                    add("other-exception", "%s raised %s (%s) [satisfiable: planted witness] || %s" % (
+                        head, ev.get("exc_type"), ev.get("exc_msg"), (ev.get("exc_tb") or "")[-400:]))
+                elif oc == "ok":
+                    cnt.inc("agree_sat")
+            if m2 and recs_w:
+                import random as _r
+                seeds_env = [wit]
+                if oc == "ok":
+                    try:
+                        seeds_env.append(O.post_env(call, ev["post"]))
+                    except Exception:
+                        pass
+                pw = O.pointwise_sampled(sess, inst, ev, seeds_env, _r.Random(spec.get("seed", 1) + cnt.get("calls", 0)))
+                cnt.inc("hook_batches", pw["batches"])
+                cnt.inc("points_sampled", pw["points"])
+                cnt.inc("sat_calls", pw["sat_calls"])
+                if pw["status"] == "mismatch":
+                    add("formula-mismatch", "at %s: sampled points differ, e.g. %s" % (head, pw["mismatches"][:3]))
+                elif pw["status"] == "ok":
+                    cnt.inc("formulas_sampled_equal")
         # --- M2
         recs = ev.get("records") or []
         if m2 and sols is not None and recs:
